@@ -183,6 +183,34 @@ def directed_small_trees():
     return out
 
 
+def directed_wide(thorough=False):
+    """Alphabets wider than a byte / a 16-bit index can count, and more required sets than a byte / a 16-bit mask has bits: complete
+    one-character trees (every index drawn once: the last character as likely as the first) and forced paths."""
+    out = []
+    def c(mode, paths, mt, **kw):
+        base = dict(len=1, allow=0, require=0, exclude=0, allowChars=[], requireSets=[], excludeChars=[])
+        base.update(kw)
+        return dict(kind="char", char=base, maxTrials=mt, failRateOne=1 if mt else 0, mode=mode, paths=paths, maxLeaves=0, tag="directed-wide")
+    cjk = lambda n: [0x4E00 + i for i in range(n)]
+    for n in (257, 300):
+        out.append(c("tree", 0, 1, len=1, allowChars=cjk(n)))
+        out.append(c("paths", 5, 0, len=3, allowChars=cjk(n), requireSets=[cjk(n)[-2:]]))
+    out.append(c("tree", 0, 1, len=1, allow=15, allowChars=cjk(200)))               # classes + custom: 268 characters
+    if thorough:
+        wide = [0x20000 + i for i in range(65536)] + cjk(300)
+        out.append(c("tree", 0, 1, len=1, allowChars=wide))
+        out.append(c("paths", 5, 0, len=2, allowChars=wide, requireSets=[wide[-1:]]))
+    # k required sets, all but one of them satisfied by the first character of the alphabet: the all-first-index stream
+    # must exhaust the attempts (error), the others must return a password that meets all k sets
+    for k in (9, 17) + ((18,) if thorough else ()):
+        for special_last in (True, False):
+            # (equal and nested sets: the specification counts over the minimal distinct ones, the code over all k by index)
+            common = [[ord("a")] + [0x100 + j for j in range(i % 4)] for i in range(k - 1)]
+            sets = common + [[ord("z")]] if special_last else [[ord("z")]] + common
+            out.append(c("paths", 5, 0, len=8, allowChars=[ord("a"), ord("m"), ord("z")], requireSets=sets))
+    return out
+
+
 def flag_scen(allow, require, exclude, variant, L, paths, tag, env_default=True):
     c = dict(len=L, allow=allow, require=require, exclude=exclude, allowChars=[], requireSets=[], excludeChars=[])
     c.update({k: list(v) if k != "requireSets" else [list(x) for x in v] for k, v in CUSTOM_VARIANTS[variant].items()})
